@@ -571,9 +571,46 @@ class AssignedGradCase:
         return self.inner.run(env)
 
 
+class TiedResetCase:
+    """two registered parameters over one storage (dec = nn.Parameter(enc): a second leaf with a gradient buffer of its own):
+    a reset through the module or through an optimizer built from module.parameters() clears both, so that afterwards each holds
+    the gradients of the calls since the reset only"""
+    prop = PROP
+
+    def __init__(self, spec):
+        self.via = spec["via"]
+        self.sig = "tied_parameters_reset:" + self.via
+
+    def run(self, env):
+        from synapgrad import nn, optim
+        out = E.Outcome()
+        Tn = T()
+        m = nn.Module()
+        m.enc = nn.Parameter(Tn(env.arr("w", SHAPE), requires_grad=True))
+        m.dec = nn.Parameter(m.enc)
+        a, b = env.arr("a", SHAPE), env.arr("b", SHAPE)
+        out.fact("both tied parameters are reported", len(m.parameters()) == 2 and any(p is m.dec for p in m.parameters()),
+                 "%d parameters reported" % len(m.parameters()))
+
+        def call(g):
+            ((m.enc * Tn(a)) + (m.dec * Tn(b))).backward(Tn(g))
+        g1, g2, g3 = (env.arr(n_, SHAPE, lo=-2, hi=2) for n_ in ("g1", "g2", "g3"))
+        call(g1)
+        call(g2)
+        out.pair("enc accumulates over two calls", gradof(m.enc), (g1 + g2) * a)
+        out.pair("dec accumulates over two calls", gradof(m.dec), (g1 + g2) * b)
+        (m if self.via == "module" else optim.SGD(m.parameters(), lr=0.1)).zero_grad()
+        call(g3)
+        out.pair("enc holds the call since the reset only", gradof(m.enc), g3 * a)
+        out.pair("dec holds the call since the reset only", gradof(m.dec), g3 * b)
+        return out
+
+
 def build(spec):
     spec = dict(spec)
     kind = spec.pop("kind")
+    if kind == "tied":
+        return TiedResetCase(spec)
     if kind == "assigned":
         return AssignedGradCase(spec)
     if kind == "nonfinite":
@@ -583,7 +620,7 @@ def build(spec):
 
 def main(tier, seed):
     t0 = time.time()
-    specs = enumerate_specs(tier, seed) + nonfinite_specs() + [{"kind": "assigned"}]
+    specs = enumerate_specs(tier, seed) + nonfinite_specs() + [{"kind": "assigned"}, {"kind": "tied", "via": "module"}, {"kind": "tied", "via": "optimizer"}]
     results = runner.run_pool(__name__, specs, tier, seed)
     return runner.finish(
         PROP, tier, seed, results, t0,
